@@ -478,7 +478,7 @@ def run_roundtrip(world: World, family: str, path: Path) -> None:
 _FAMILY_WEIGHT = {"line": 12, "json": 12, "base64": 8, "zlib": 8, "bz2": 4, "struct": 4, "namedtuple": 4, "autosep": 8, "fixed": 4, "filebased": 8, "stapled": 8, "converter": 4}
 
 
-def make_harnesses(paths: dict[str, Path], suffix: str = "", tiers: tuple = ("quick", "thorough"), wall_limit: float = 30.0) -> list[Harness]:
+def make_harnesses(paths: dict[str, Path], suffix: str = "", tiers: tuple = ("quick", "thorough"), wall_limit: float = 120.0) -> list[Harness]:
     out = []
     for family in M.FAMILIES:
         for path in paths.values():
